@@ -4,8 +4,13 @@
 //! `<outdir>/<property>.ops` (operation lines for the Lean driver), `<outdir>/<property>.impl` (the
 //! implementation's canonical answers, one per line) and `<outdir>/<property>.stats.json`
 //! (input distribution, oracle results).
+mod alloc;
 mod c09;
+mod codec;
 mod util;
+
+#[global_allocator]
+static GLOBAL: alloc::Counting = alloc::Counting;
 
 fn main() {
     let args: Vec<String> = std::env::args().collect();
@@ -17,10 +22,13 @@ fn main() {
     let thorough = args[3] == "thorough";
     let seed: u64 = args[4].parse().unwrap_or(0);
     let dir = args[5].as_str();
-    std::panic::set_hook(Box::new(|_| {}));
+    if std::env::var("HARNESS_PANICS").is_err() {
+        std::panic::set_hook(Box::new(|_| {}));
+    }
     let mut out = util::Out::new();
     match prop {
         "C09" => c09::run(&mut out, thorough, seed),
+        "C07" | "C08" => codec::run(&mut out, thorough, seed, prop),
         _ => {
             eprintln!("unknown property {prop}");
             std::process::exit(2);
